@@ -20,6 +20,7 @@ type Script struct {
 	Adv    *Adversary
 	Others []int  // harness-controlled validator indices
 	Peer   string // peer id the deliveries come from ("harness" if empty)
+	Fail   string // set by a scenario that judges liveness itself (C04): why the victim cannot finish the height
 	A      *Alarms
 	Log    []string
 }
